@@ -36,6 +36,7 @@ structure Ref where
   kind   : RefKind
   label  : Nat
   addend : BitVec 64          -- addend, or the absolute target for jmpAbs / a64Abs
+  seg    : Option (BitVec 8) := none   -- FS / GS override the instruction was written with (its prefix byte must come first)
   deriving Repr, Inhabited
 
 structure Ghost where
@@ -56,8 +57,8 @@ def setSize (sizes : List Nat) (i n : Nat) : List Nat :=
 def ghostStep (g : Ghost) (op : Op) (err : Err) (size : Nat) : Ghost :=
   let start := getSize g g.cur
   let g1 := { g with sizes := setSize g.sizes g.cur size }
-  let addRef (k : RefKind) (l : Nat) (a : BitVec 64) : Ghost :=
-    if err = .ok then { g1 with refs := g1.refs ++ [{ sec := g.cur, start := start, stop := size, kind := k, label := l, addend := a }] }
+  let addRef (k : RefKind) (l : Nat) (a : BitVec 64) (seg : Option (BitVec 8) := none) : Ghost :=
+    if err = .ok then { g1 with refs := g1.refs ++ [{ sec := g.cur, start := start, stop := size, kind := k, label := l, addend := a, seg := seg }] }
     else g1
   match op with
   | .newLabel => { g with labels := g.labels ++ [none] }
@@ -70,7 +71,7 @@ def ghostStep (g : Ghost) (op : Op) (err : Err) (size : Nat) : Ghost :=
   | .jmp _ _ l => addRef .x86rel l 0#64
   | .mem k l d =>
     let immLen := (k.shape g.arch).imm.length
-    addRef (if g.arch = .x86 then .abs32 immLen else .x86rip immLen) l (d.signExtend 64)
+    addRef (if g.arch = .x86 then .abs32 immLen else .x86rip immLen) l (d.signExtend 64) (k.ashape g.arch).seg
   | .a64 k l a => addRef (.a64 k.kind) l a
   | .elabel l n => addRef (.dataAbs (if n = 0 then g.arch.regSize else n)) l 0#64
   | .edelta l b n => addRef (.dataDelta (if n = 0 then g.arch.regSize else n) b) l 0#64
@@ -78,7 +79,7 @@ def ghostStep (g : Ghost) (op : Op) (err : Err) (size : Nat) : Ghost :=
   | .relocate b => if err = .ok then { g with relocated := some b } else g
   | .jmpAbs _ _ t => addRef .jmpAbs 0 t
   | .a64Abs k t => addRef (.a64Abs k.kind) 0 t
-  | .memAbs k _ t => addRef (.memAbs (k.ashape g.arch).imm.length) 0 t
+  | .memAbs k _ t => addRef (.memAbs (k.ashape g.arch).imm.length) 0 t (k.ashape g.arch).seg
 
 /-- what the implementation shows at the end: layout + bytes of every section, and its unresolved counter -/
 structure DumpSec where
@@ -122,7 +123,9 @@ def sextN (n : Nat) (v : Nat) : BitVec 64 := (BitVec.ofNat (8 * n) v).signExtend
 /-- x86 ISA: the memory operand of a one-byte-opcode instruction that starts at `p0` (legacy prefixes 67h / 66h, then a REX
 prefix in 64-bit mode, the opcode, ModRM [, SIB]); returns (has 67h, REX.W, opcode, rip-relative?, position of disp32) for
 the two forms without a base register: `mod=00 rm=101` and `mod=00 rm=100` + SIB `base=101 index=100` -/
-def x86AbsOperand (buf : Bytes) (p0 : Nat) (is64 : Bool) : Option (Bool × Bool × BitVec 8 × Bool × Nat) :=
+def x86AbsOperand (buf : Bytes) (p00 : Nat) (is64 : Bool) : Option (Bool × Bool × BitVec 8 × Bool × Nat) :=
+  -- an FS / GS segment override (64h / 65h) adds the segment base to the effective address computed below; it comes first
+  let p0 := if buf[p00]? = some 0x64#8 ∨ buf[p00]? = some 0x65#8 then p00 + 1 else p00
   let has67 := buf[p0]? = some 0x67#8
   let p1 := if has67 then p0 + 1 else p0
   let p2 := if buf[p1]? = some 0x66#8 then p1 + 1 else p1
@@ -140,7 +143,8 @@ def x86AbsOperand (buf : Bytes) (p0 : Nat) (is64 : Bool) : Option (Bool × Bool 
 
 /-- x86 ISA: `A0..A3` (mov between the accumulator and `[moffs]`): position and size of the address literal
 (address size = 4 in 32-bit mode, 8 in 64-bit mode; no 67h in the menu) -/
-def x86Moffs (buf : Bytes) (p0 : Nat) (is64 : Bool) : Option (Nat × Nat) :=
+def x86Moffs (buf : Bytes) (p00 : Nat) (is64 : Bool) : Option (Nat × Nat) :=
+  let p0 := if buf[p00]? = some 0x64#8 ∨ buf[p00]? = some 0x65#8 then p00 + 1 else p00
   let p1 := if buf[p0]? = some 0x66#8 then p0 + 1 else p0
   let p2 := match buf[p1]? with
     | some b => if is64 ∧ b &&& 0xF0#8 = 0x40#8 then p1 + 1 else p1
@@ -170,6 +174,8 @@ def judgeRef (g : Ghost) (d : Dump) (r : Ref) : Verdict :=
   let so := secOff d r.sec
   let wraps (p : Nat) : Bool := so.toNat + p ≥ 2 ^ 64
   let tgt : Option (BitVec 64) := (labelAddr g d r.label).map (· + r.addend)
+  -- the segment override the program asked for must be the first byte of the instruction (x86: fs = 64h, gs = 65h)
+  if (match r.seg with | some b => buf[r.start]? != some b | none => false) then .bad "segment-override-missing" else
   match r.kind with
   | .x86rel =>
     match x86BranchField buf r.start with
